@@ -556,6 +556,8 @@ type foldBounds struct {
 	bnote    map[token.Pos]string
 	bcount   map[token.Pos]int
 	bentries map[string]bool
+	// last-resort folds of single functions over unconstrained arguments
+	auto map[string]*autoFoldResult
 }
 
 // harvestBounds records the bounds notes of a total exploration of entry.
@@ -638,6 +640,85 @@ func (c *Ctx) decidedByFold(s bceSite) (string, bool) {
 		if c.fb.entries[o] {
 			return fmt.Sprintf("decided by the total fold of %s: in range on all %d executions of the site", o, c.fb.count[s.Lbrack]), true
 		}
+	}
+	return "", false
+}
+
+// autoFold is the last resort for a bounds site nothing else decides: a total
+// fold of the site's own function over unconstrained arguments (every integer
+// in its type's range, every slice and string of any length and content, every
+// call without a body an opaque effect with fresh results). Nothing about the
+// callers is assumed, so a site that is in range on every path is in range in
+// every execution. Any aborted path leaves the whole function undecided.
+type autoFoldResult struct {
+	total bool
+	paths int
+	note  map[token.Pos]string
+	// why the fold is not total
+	aborts []string
+}
+
+func (c *Ctx) autoFoldDecides(s bceSite) (why string, ok bool) {
+	if !s.Lbrack.IsValid() {
+		return "", false
+	}
+	c.fb.mu.Lock()
+	if c.fb.auto == nil {
+		c.fb.auto = map[string]*autoFoldResult{}
+	}
+	res, have := c.fb.auto[s.Func]
+	c.fb.mu.Unlock()
+	if !have {
+		res = &autoFoldResult{note: map[token.Pos]string{}}
+		var fn *ssa.Function
+		for _, f := range c.P.AllModuleFuncs() {
+			if astFuncName(f) == s.Func && f.Blocks != nil {
+				fn = f
+				break
+			}
+		}
+		if fn != nil {
+			func() {
+				defer func() {
+					if r := recover(); r != nil {
+						res.total = false
+					}
+				}()
+				m := c.machine()
+				m.OpaqueOK = true
+				m.MaxPaths = 20000
+				paths := m.Explore(fn, func(mm *fold.Machine) []fold.Val {
+					var args []fold.Val
+					for _, p := range fn.Params {
+						args = append(args, fold.SymOfType(p.Name(), p.Type()))
+					}
+					return args
+				}, nil)
+				res.total = len(paths) > 0
+				res.paths = len(paths)
+				rank := map[string]int{"proven": 0, "unproven": 1, "violated": 2}
+				for _, p := range paths {
+					if p.Abort != "" {
+						res.total = false
+						res.aborts = append(res.aborts, p.Abort)
+					}
+					for _, b := range p.Bounds {
+						if old, seen := res.note[b.Pos]; !seen || rank[b.Note] > rank[old] {
+							res.note[b.Pos] = b.Note
+						}
+					}
+				}
+			}()
+		}
+		if os.Getenv("WSCHECK_DEBUG_AUTOFOLD") != "" {
+			fmt.Fprintf(os.Stderr, "autofold %s: fn=%v total=%v paths=%d notes=%v aborts=%v\n", s.Func, fn != nil, res.total, res.paths, res.note, res.aborts)
+		}
+		c.fb.mu.Lock()
+		c.fb.auto[s.Func] = res
+		c.fb.mu.Unlock()
+	}
+	if res.total && res.note[s.Lbrack] == "proven" {
+		return fmt.Sprintf("in range on every one of the %d paths of a total fold of %s over unconstrained arguments (no assumption about its callers)", res.paths, s.Func), true
 	}
 	return "", false
 }
